@@ -123,10 +123,20 @@ def doc_traits(doc):
     walk(doc['raw'], f)
     return tr
 
-# All dumper findings D17a-k are repaired in /repo: there is NO known failure class any more, every failure of the
-# property is an ordinary violation.  The class names only label the failure text; `doc_traits` only feeds the histogram.
-KEY_OF_CLASS = {}
-ID_OF_CLASS = {}
+# All dumper findings D17a-l are repaired in /repo. One recorded finding remains (D42): the dumper elides a flag that the
+# parent implies; a later `!prev` stage moves the node to another parent, where the elided flag is no longer implied
+# (model theorem C18_substitution_prev_counterexample). It is attributed only when a later stage of the case holds a !prev.
+KEY_OF_CLASS = {'dump-elided-flag-reparented': 'later-prev'}
+ID_OF_CLASS = {'dump-elided-flag-reparented': 'D42'}
+
+def has_prev(raw):
+    return any((n.get('t') or {}).get('k') == 'prev' for _, n in G.paths_of(raw))
+
+def case_traits(case):
+    tr = set(doc_traits(case['doc']))
+    if any(has_prev(d['raw']) for d in case.get('seq', [])):
+        tr.add('later-prev')
+    return tr
 
 NASTY = ['multi\nline', 'back\\slash', "it's", 'say "hi"', 'both \' and "', 'key: value', 'a #comment', ' lead', 'trail ', 'caf\u00e9', '\u2713 ok', 'tab\there',
          '- dash', '? q', '[x', '{y', '*star', '&amp', '!bang', '|pipe', '>gt', '%pct', '@at', '`tick', 'null', 'true', '1.5', '007', '1e3', '~', '', 'x: y\n# z']
@@ -175,6 +185,7 @@ class C18(Prop):
         return [
             D(M({'a': M({'b': M({'c': S(1)}), 'd': S(2, kw={'prio': -1})}, kw={'prio': 1})}), M({'a': M({'b': M({'c': S(2)})})})),       # D03 witness
             D(M({'a': S(None, kw={'prio': 1}), 'b': Sempty(kw={'del': True})}), M({'a': S(3), 'b': S(4)})),                               # D17b (repaired)
+            W(D(M({'c': M({'y': M({'z': S(2)}, kw={'new': False, 'del': True})}, kw={'new': False})}), M({'c': M({'y': M({'z': S(1)})})}), M({'k': Stext('c.y', 'prev')}))),   # D42 (known finding)
             W(D(M({'a': Q([], kw={'del': True})}), M({'a': Q([S(1)])}))),   # D17a  a: !del []
             D(M({'a': Sempty('clear')}), M({'a': M({'x': S(1)})})),   # D17c (repaired: must pass)
             D(M({'a': Sempty('clear', kw={'prio': 1, 'md': [['m', 1]]}), 'b': M({'c': Sempty('clear')}, kw={'prio': -1})}), M({'a': M({'x': S(1)}), 'b': M({'c': Q([S(2)])})})),
@@ -210,6 +221,12 @@ class C18(Prop):
             for _ in range(rng.choice([1, 1, 2])):
                 base = doc['raw']
                 seq.append({'raw': G.gen_override(rng, G.MERGECTL if rng.random() < 0.7 else G.PLAIN, base, 2, 0.3)})
+            if rng.random() < 0.1:
+                # a later stage that MOVES a sub-tree of the document (`k: !prev path`): what the dump elided as implied by the parent
+                # must still hold under the new parent (recorded finding D42)
+                ps = [p for p, _ in G.paths_of(doc['raw']) if p and all(isinstance(k, str) and k.isidentifier() for k in p)]
+                if ps:
+                    seq.append({'raw': M({'moved': Stext('.'.join(rng.choice(ps)), 'prev')})})
             st = self.STYLES[rng.randrange(len(self.STYLES))] if rng.random() < 0.3 else self.STYLES[0]
             if rng.random() < 0.12 and 'm' in doc['raw']:
                 # file-relative !path nodes in a document that knows its file: the dump must keep denoting the same location
@@ -373,6 +390,8 @@ class C18(Prop):
                 elif 'shortcut-stack' in tr: cls = 'dump-shortcut-tag-not-on-stack'
                 elif 'safe-equals-source-default' in tr: cls = 'dump-safe-elided'
                 else: cls = 'substitution-differs'
+                if any(has_prev(x['raw']) for x in case.get('seq', [])[s['pos']:]):
+                    cls = 'dump-elided-flag-reparented'       # a !prev stage AFTER the substituted document
                 out.append((cls, f"substituting the dump at position {s['pos']} of the merge sequence changes the result: {d}"))
                 break
         return out
@@ -386,7 +405,7 @@ class C18(Prop):
 
     def split_failures(self, case, io):
         fs = self.failures(case, io) if isinstance(io, dict) else []
-        tr = doc_traits(case['doc'])
+        tr = case_traits(case)
         unknown = [f for f in fs if not (f[0] in KEY_OF_CLASS and KEY_OF_CLASS[f[0]] in tr)]
         return fs, unknown
 
@@ -407,7 +426,7 @@ class C18(Prop):
             return None
         cls = desc.split(':', 1)[0]
         trait = KEY_OF_CLASS.get(cls)
-        if trait and trait in doc_traits(case['doc']):
+        if trait and trait in case_traits(case):
             return cls
         return None
 
